@@ -474,15 +474,18 @@ impl LineBuffer {
         }
         let mut sow = 0;
         let mut gis = self.buf[..pos].grapheme_indices(true).rev();
+        // grapheme already taken from `gis` that the next iteration must look at first
+        let mut carry = None;
         'outer: for _ in 0..n {
             sow = 0;
-            let mut gj = gis.next();
+            let mut gj = carry.take().or_else(|| gis.next());
             'inner: loop {
                 if let Some((j, y)) = gj {
                     let gi = gis.next();
                     if let Some((_, x)) = gi {
                         if is_start_of_word(word_def, x, y) {
                             sow = j;
+                            carry = gi;
                             break 'inner;
                         }
                         gj = gi;
@@ -550,21 +553,28 @@ impl LineBuffer {
         } else {
             None
         };
+        // grapheme already taken from `gis` that the next iteration must look at first
+        let mut carry = None;
         'outer: for _ in 0..n {
             wp = 0;
-            gi = gis.next();
+            gi = carry.take().or_else(|| gis.next());
             'inner: loop {
                 if let Some((i, x)) = gi {
                     let gj = gis.next();
                     if let Some((j, y)) = gj {
                         if at == At::Start && is_start_of_word(word_def, x, y) {
                             wp = j;
+                            carry = gj;
                             break 'inner;
                         } else if at != At::Start && is_end_of_word(word_def, x, y) {
                             if word_def == Word::Emacs || at == At::AfterEnd {
                                 wp = j;
                             } else {
                                 wp = i;
+                            }
+                            if at != At::BeforeEnd {
+                                // (`2e` skipping a one-char word is pinned by test::vi_cmd::e)
+                                carry = gj;
                             }
                             break 'inner;
                         }
